@@ -1774,6 +1774,194 @@ fn probe_nrd_duplicate(seed: u64) -> bool {
 	ok
 }
 
+// ---------------------------------------------------------------- repeated NRD occurrences x deep rewinds
+
+/// The recent-kernel index is a linked list per excess; every scenario above leaves at most three entries in it. Here
+/// the SAME NRD kernel is mined `k` = 4..6 times on chain A (exactly `rel` blocks apart), then a fork B leaves A below at
+/// least two of those occurrences (so judging B's blocks, and reorganising to B, rewinds two or more list entries at once)
+/// and carries the kernel again rel-1 / rel / rel+1 blocks after the newest occurrence that B still has. The reference
+/// ledger judges every block on its own ancestry; the node must agree on every one, also after a restart (the index is
+/// rebuilt at start-up) and after the chain reorganised to B and back to A.
+fn nrd_repeated(run: &Run, base: &str, n_variants: u64) {
+	use vcommon::forktree::{GenBlock, Hist};
+	use vcommon::scenarios::mk_block_txs;
+	vcommon::world::init_thread(true);
+	for v in 0..n_variants {
+		let seed = run.seed.wrapping_mul(0x9E37_79B9_7F4A_7C15) ^ (0x4E52_4452 + v);
+		let rel = 1 + v % 3;
+		let k = 4 + (v / 3) % 3;
+		let off: i64 = [-1i64, 0, 1][((v / 9) % 3) as usize];
+		let restart = (v / 27) % 2 == 1;
+		let mut p = Prng::new(seed);
+		let kept = 1 + p.below(k - 2); // occurrences B keeps: 1..=k-2, so at least two are rewound
+		if rel as i64 + off - 1 < 0 {
+			continue; // rel 1 cannot be undercut
+		}
+		let mut h = Hist::new(seed, false);
+		let kp = Prng::new(seed ^ 0x4B45_524E);
+		let occ_h = |i: u64| NRD_FIRST_HEIGHT + i * rel;
+		// ---- chain A
+		let mut a: Vec<GenBlock> = vec![];
+		let mut tip = h.genesis.hash();
+		let last_a = occ_h(k - 1) + 1;
+		let mut n_occ = 0;
+		for height in 1..=last_a {
+			let is_occ = height >= NRD_FIRST_HEIGHT && (height - NRD_FIRST_HEIGHT) % rel == 0 && n_occ < k;
+			let txs = if is_occ {
+				n_occ += 1;
+				let coin = h.spendable(&tip).into_iter().next().expect("mature coin");
+				vec![h.nrd_tx(&coin, rel, &kp)]
+			} else {
+				vec![]
+			};
+			let gb = mk_block_txs(&mut h, &tip, &txs, 10, if is_occ { "nrd_occurrence" } else { "filler" });
+			tip = gb.hash;
+			a.push(gb);
+		}
+		// ---- fork B
+		let newest_kept = occ_h(kept - 1);
+		let d = (newest_kept as i64 + rel as i64 + off) as u64; // height of B's NRD block
+		let t_max = (rel as i64 + off - 1) as u64;
+		let f = newest_kept + p.below(t_max.min(rel - 1) + 1); // fork point: at or above the newest kept occurrence, below the next one
+		let mut b: Vec<GenBlock> = vec![];
+		let mut btip = a[(f - 1) as usize].hash;
+		let b_wins = p.chance(2, 3);
+		let b_len = (last_a - f) + 2;
+		for i in 0..b_len {
+			let height = f + 1 + i;
+			let txs = if height == d {
+				let coin = h.spendable(&btip).into_iter().next().expect("mature coin on the fork");
+				vec![h.nrd_tx(&coin, rel, &kp)]
+			} else {
+				vec![]
+			};
+			let gb = mk_block_txs(&mut h, &btip, &txs, if b_wins { 11 } else { 1 }, if height == d { "nrd_decision" } else { "filler" });
+			let ok = gb.verdict.is_ok();
+			b.push(gb.clone());
+			if !ok {
+				break; // nothing is built on a block the rules refuse
+			}
+			btip = gb.hash;
+		}
+		// ---- A strikes back: two more blocks, the second carries the kernel again right at / one below its threshold
+		let mut a2: Vec<GenBlock> = vec![];
+		{
+			let back_off: u64 = p.below(2); // 0: exactly rel after the newest occurrence (accept) / 1: one block early (refuse) when rel >= 2
+			let newest = occ_h(k - 1);
+			let mut atip = a.last().unwrap().hash;
+			let mut height = last_a + 1;
+			let target = if back_off == 1 && rel >= 2 { newest + rel - 1 } else { newest + rel };
+			let target = target.max(height);
+			while height <= target {
+				let txs = if height == target {
+					let coin = h.spendable(&atip).into_iter().next().expect("mature coin");
+					vec![h.nrd_tx(&coin, rel, &kp)]
+				} else {
+					vec![]
+				};
+				let gb = mk_block_txs(&mut h, &atip, &txs, 40, if height == target { "nrd_decision_after_reorg_back" } else { "filler" });
+				let ok = gb.verdict.is_ok();
+				a2.push(gb.clone());
+				if !ok {
+					break;
+				}
+				atip = gb.hash;
+				height += 1;
+			}
+		}
+		// ---- deliver
+		let dir = format!("{}/nrdrep{}", base, v);
+		let _ = std::fs::remove_dir_all(&dir);
+		let desc = json!({"scenario": "nrd_repeated", "variant": v, "seed": seed, "rel": rel, "occurrences_on_a": k, "kept_on_fork": kept, "fork_point": f,
+			"decision_height": d, "off": off, "restart_before_fork": restart, "fork_wins": b_wins});
+		let mut chain = match open_chain(&dir, &h.genesis) {
+			Ok(c) => Some(c),
+			Err(e) => {
+				run.inconclusive(&format!("nrd_repeated: cannot open chain: {}", e));
+				continue;
+			}
+		};
+		let mut ok_so_far = true;
+		let mut deliver = |chain: &Chain, gb: &GenBlock, phase: &str, run: &Run| -> bool {
+			let r = monitor::catch(|| chain.process_block(gb.block.clone(), Options::SKIP_POW));
+			let tag = gb.tags.get(0).cloned().unwrap_or_default();
+			match r {
+				Err(pn) => {
+					run.violation(&format!("nrd_repeated;panic;at={}", pn.location), &format!("process_block panicked: {} at {}", pn.message, pn.location), desc.clone());
+					false
+				}
+				Ok(res) => {
+					let accepted = res.is_ok();
+					let expected = gb.verdict.is_ok();
+					if tag.starts_with("nrd_decision") {
+						run.eval(&format!("nrd_repeated:{}:rel{}:k{}:kept{}:off{}:{}", phase, rel, k, kept, off, if expected { "accept" } else { "reject" }), true);
+						run.count(&format!("nrd_repeated.decisions.{}", if expected { "accept" } else { "reject" }), 1);
+					} else {
+						run.eval("nrd_repeated:setup", false);
+					}
+					if accepted != expected {
+						let what = format!(
+							"block at height {} ({}, {}) on the fork rewinding {} occurrences of the kernel: node {}, reference rule {} ({:?} / {:?})",
+							gb.block.header.height, tag, phase, k - kept,
+							if accepted { "accepted" } else { "refused" }, if expected { "accepts" } else { "refuses" },
+							res.as_ref().err().map(|e| format!("{:?}", e).chars().take(80).collect::<String>()), gb.verdict
+						);
+						run.violation(
+							&format!("nrd_repeated;{};{};node_{}", phase, tag, if accepted { "accepts_what_the_rule_refuses" } else { "refuses_what_the_rule_accepts" }),
+							&what,
+							desc.clone(),
+						);
+						return false;
+					}
+					true
+				}
+			}
+		};
+		for gb in &a {
+			if !deliver(chain.as_ref().unwrap(), gb, "chain_a", run) {
+				ok_so_far = false;
+				break;
+			}
+		}
+		if ok_so_far && restart {
+			drop(chain.take());
+			chain = match open_chain(&dir, &h.genesis) {
+				Ok(c) => Some(c),
+				Err(e) => {
+					run.inconclusive(&format!("nrd_repeated: cannot reopen chain: {}", e));
+					None
+				}
+			};
+			run.count("nrd_repeated.restarts_before_the_fork", 1);
+		}
+		if let (true, Some(c)) = (ok_so_far, chain.as_ref()) {
+			for gb in &b {
+				if !deliver(c, gb, "fork_b", run) {
+					ok_so_far = false;
+					break;
+				}
+			}
+			if ok_so_far {
+				if b_wins && b.iter().all(|x| x.verdict.is_ok()) {
+					run.count("nrd_repeated.reorgs_rewinding_two_or_more_occurrences", 1);
+				}
+				for gb in &a2 {
+					if !deliver(c, gb, "chain_a_again", run) {
+						ok_so_far = false;
+						break;
+					}
+				}
+			}
+			if ok_so_far {
+				run.count("nrd_repeated.scenarios_agreeing", 1);
+			}
+		}
+		drop(chain);
+		run.count("nrd_repeated.scenarios", 1);
+		let _ = std::fs::remove_dir_all(&dir);
+	}
+}
+
 // ---------------------------------------------------------------- main
 
 fn run_scenario(rec: &Run, base: &str, idx: usize, spec: &Spec) {
@@ -1876,7 +2064,16 @@ fn main() {
 			.unwrap_or(4)
 			.min(16)
 			.max(1);
-		run.spawn_workers(nworkers, &[], (hard_deadline + 45.0) as u64);
+		let sc = Scratch::new("c13nrd");
+		let base = sc.path.to_string_lossy().to_string();
+		std::thread::scope(|sc2| {
+			let run = &run;
+			let base = base.clone();
+			let n = run.tier.pick(54u64, 216u64);
+			sc2.spawn(move || nrd_repeated(run, &base, n));
+			run.spawn_workers(nworkers, &[], (hard_deadline + 45.0) as u64);
+		});
+		drop(sc);
 	}
 
 	// ---- minimum observations
@@ -1960,6 +2157,10 @@ fn main() {
 			2,
 		);
 		run.require("scenarios run", run.counter("scenarios_run"), core as u64);
+		run.require("repeated NRD kernel (4-6 occurrences): scenarios agreeing with the reference rule", run.counter("nrd_repeated.scenarios_agreeing"), run.tier.pick(30, 120));
+		run.require("repeated NRD kernel: reorganisations rewinding two or more occurrences", run.counter("nrd_repeated.reorgs_rewinding_two_or_more_occurrences"), run.tier.pick(10, 40));
+		run.require("repeated NRD kernel: decisions the rule refuses", run.counter("nrd_repeated.decisions.reject"), run.tier.pick(10, 40));
+		run.require("repeated NRD kernel: decisions the rule accepts", run.counter("nrd_repeated.decisions.accept"), run.tier.pick(20, 80));
 	}
 	run.finish();
 }
